@@ -13,6 +13,13 @@ independent brute-force oracle for `_value_range`.
      (a product/sum of positive terms is at least each of its axes).  A non-None `_value_range` must describe it exactly
      — the statement `valueRange_spec` proves for the model.
 
+ (D) whole `cse`: the real `stage2.cse` is wrapped during the same real calls; every (expressions, options, result) is
+     compared structurally with the model `cseTrees` (Lean, `Solve/CseTrees.lean`, driver kind `cse_trees`): candidate
+     search, filters, selection order and tree surgery.  `unnamed.<uuid>` names are renamed canonically (first
+     occurrence) on both sides.  Plus generated forests built with the real constructors (shared sub-expressions,
+     slices, concatenations, brackets, `min_value > 1`, valued axes, both options) on which the real `cse` is called
+     directly; an exception of the real code must be an `ok: false` of the model and vice versa.
+
 A disagreement is a broken tie (`ctx.tie_broken`), which enlarges the budget of the C02 search; a value wrongly claimed by
 `_value_range` is also turned into a concrete call (`matches("(E), (E)", n, n)`) that `run_cse` returns and the C02 check
 judges with its own oracle like any other case.
@@ -38,6 +45,25 @@ def vexpr_json(e, S):
     if isinstance(e, S.Brackets):
         return {"t": "br", "e": vexpr_json(e.inner, S)}
     raise TypeError(type(e))
+
+
+def rename_json(j, ren):
+    """canonical names for `unnamed.<uuid>` axes (first occurrence in `ren`, which is extended)"""
+    if j is None:
+        return None
+    t = j["t"]
+    if t == "axis":
+        n = j["n"]
+        if n.startswith("unnamed."):
+            n = ren.setdefault(n, f"unnamed.{len(ren)}")
+        return {"t": "axis", "n": n, "v": j["v"], "min": j["min"]}
+    if t in ("list", "concat"):
+        return {"t": t, "c": [rename_json(c, ren) for c in j["c"]]}
+    return {"t": t, "e": rename_json(j["e"], ren)}
+
+
+def forest_json(exprs, S, ren):
+    return [None if e is None else rename_json(vexpr_json(e, S), ren) for e in exprs]
 
 
 def canon_range(r):
@@ -68,6 +94,8 @@ class Wrap:
         self.M, self.S = M, S
         self.vr, self.rep = M._value_range, M._has_repeated_axis
         self.seen_vr, self.seen_rep = {}, {}
+        self.cse = S.cse
+        self.seen_cse = {}
 
     def __enter__(self):
         import json
@@ -83,13 +111,23 @@ class Wrap:
             j = vexpr_json(list(exprlist), self.S)
             self.seen_rep.setdefault(json.dumps(j, sort_keys=True), (j, bool(r)))
             return r
+        def cse(expressions, cse_concat=True, cse_in_brackets=False, verbose=False):
+            expressions = list(expressions)
+            ren = {}
+            jin = forest_json(expressions, self.S, ren)
+            r = self.cse(expressions, cse_concat=cse_concat, cse_in_brackets=cse_in_brackets, verbose=verbose)
+            rec = {"roots": jin, "cse_concat": bool(cse_concat), "cse_in_brackets": bool(cse_in_brackets)}
+            self.seen_cse.setdefault(json.dumps(rec, sort_keys=True), (rec, {"ok": True, "out": forest_json(list(r), self.S, ren)}))
+            return r
         self.M._value_range = vr
         self.M._has_repeated_axis = rep
+        self.S.cse = cse
         return self
 
     def __exit__(self, *a):
         self.M._value_range = self.vr
         self.M._has_repeated_axis = self.rep
+        self.S.cse = self.cse
 
 
 FIXED_CALLS = [
@@ -112,6 +150,23 @@ FIXED_CALLS = [
     ("id", "(a + b) c -> c (a + b)", [[5, 2]], {}),
     ("sum", "a [(b c)]", [[2, 6]], {}),
     ("matches", "(a... ) b, (a...)", [[6, 2], [6]], {}),
+    # whole-cse stream (D): slices, overlapping slices, nested candidates, single occurrences, both options
+    ("matches", "(a b c 3) d, (a b c 3)", [[18, 2], [18]], {}),
+    ("matches", "(a b c) (a b), d", [[8, 4], [3]], {}),
+    ("matches", "(x a b) (a b) y", [[8, 4, 3]], {}),
+    ("solve_shapes", "((a + b) c (d + e)) f", [[12, 2]], {"a": 1, "d": 1}),
+    ("solve_shapes", "(a b) cse..., (a b)", [[6, 2, 3], [6]], {}),
+    ("id", "a... (b c) -> (b c) a...", [[2, 3, 6]], {"b": 2}),
+    ("id", "(a b) (c d) -> (c d) (a b)", [[6, 4]], {}),
+    ("id", "b (s p) c -> b s (p c)", [[2, 6, 3]], {"p": 2}),
+    ("sum", "a [(b c)] (d e)", [[2, 6, 4]], {}),
+    ("sum", "a [c d] ([c d])", [[4, 2, 3, 6]], {}),
+    ("sum", "a ([c d]) [c d]", [[4, 6, 2, 3]], {}),
+    ("sum", "([b c] d) [e]", [[12, 5]], {"d": 2}),
+    ("mean", "b [s...] (c d)", [[2, 3, 4, 6]], {"c": 2}),
+    ("add", "(a b) c, (a b) -> (a b) c", [[6, 2], [6]], {}),
+    ("add", "a (b + c), (b + c) -> a (b + c)", [[2, 5], [5]], {}),
+    ("dot", "a (b c), (b c) d -> a d", [[2, 6], [6, 5]], {}),
 ]
 
 
@@ -163,6 +218,267 @@ def gen_arg(rng, S):
     if rng.random() < 0.5:
         return [gen_tree(rng, S, names, depth, counter) for _ in range(rng.choice([1, 2, 2, 3, 4]))]
     return gen_tree(rng, S, names, depth, counter)
+
+
+# ------------------------------------------------------------------ (D) whole `cse`: generated forests
+
+# Real calls (both in FIXED_CALLS) on which the side conditions `cseCheck` of `cseTrees_preserves_sols_partial` are known
+# not to hold on the pinned tree, because einx itself is wrong there (docs/wp/cse.md, section (e)):
+#  1. a user axis `cse...` expands to `cse.0`, `cse.1` and collides with the fresh axis `cse.0`;
+#  2. the root-level filter of `cse` looks only at the first exprlist of a candidate, so `[c d]` at root level is
+#     replaced by one axis and stage 3 fails its `ndim` assertion.
+# Any *other* real call that does not meet the side conditions is a broken tie (premise of the theorem not established).
+DOCUMENTED_NOT_MET = {
+    ("(a b) cse.0 cse.1, (a b), , 6 2 3, 6, None", True, False),
+    ("a ([c d]) [c d], a (), 4 6 2 3, None", False, True),
+}
+
+
+def gen_forest(rng, S):
+    """Expressions for `cse`, built with the real classes: a pool of sub-expressions is placed (as deep copies) several
+    times, inside flattened axes / brackets / concatenations and as runs of children of longer lists, so that dict
+    entries with several exprlists, overlapping slices and nested candidates occur; plus shape-like roots and `None`."""
+    names = ["a", "b", "c", "d", "e", "f", "g", "h"][:rng.choice([3, 4, 6, 8])]
+    counter = [0]
+
+    def axis():
+        k = rng.random()
+        if k < 0.22:
+            counter[0] += 1
+            return S.Axis(f"unnamed.{counter[0]}", rng.choice([1, 1, 2, 3]), [])
+        if k < 0.226:
+            return S.Axis(rng.choice(["cse.0", "cse.1"]), None, [])
+        mn = 1 if rng.random() < 0.88 else rng.choice([2, 3])
+        return S.Axis(rng.choice(names), None, [], min_value=mn)
+
+    def unit(depth):
+        """ndim-1 node"""
+        k = rng.random()
+        if depth <= 0 or k < 0.5:
+            return axis()
+        if k < 0.8:
+            return S.FlattenedAxis.create(S.List.create(run(depth - 1), []), [])
+        if k < 0.92:
+            return S.ConcatenatedAxis.create([unit(depth - 1) for _ in range(rng.choice([2, 2, 3]))], [])
+        return S.Brackets.create(unit(depth - 1), [])
+
+    def run(depth):
+        return [unit(depth) for _ in range(rng.choice([0, 1, 2, 2, 3, 3, 4]))]
+
+    pool = [run(rng.choice([0, 1, 1, 2])) for _ in range(rng.choice([1, 2, 3]))]
+    pool = [p for p in pool if p]
+
+    def with_pool(depth):
+        """a run of nodes containing pool copies"""
+        out = []
+        for _ in range(rng.choice([1, 2, 2, 3])):
+            k = rng.random()
+            if pool and k < 0.55:
+                out += [c.__deepcopy__() for c in rng.choice(pool)]
+            else:
+                out.append(unit(depth))
+        return out
+
+    roots = []
+    for _ in range(rng.choice([1, 2, 2, 3])):
+        items = []
+        for _ in range(rng.choice([1, 2, 2, 3])):
+            k = rng.random()
+            if k < 0.55:
+                items.append(S.FlattenedAxis.create(S.List.create(with_pool(1), []), []))
+            elif k < 0.7:
+                inner = S.List.create(with_pool(1), [])
+                items.append(S.Brackets.create(inner, []))
+            elif k < 0.8 and pool:
+                items += [c.__deepcopy__() for c in rng.choice(pool)]
+            else:
+                items.append(unit(2))
+        roots.append(S.List.create(items, []))
+    second = []
+    for r in roots:
+        k = rng.random()
+        if k < 0.4:
+            second.append(None)
+        else:
+            dims = []
+            for _ in range(r.ndim):
+                counter[0] += 1
+                dims.append(S.Axis(f"unnamed.{counter[0]}", rng.choice([1, 2, 3, 4, 6]), []))
+            second.append(S.List.create(dims, []))
+    if rng.random() < 0.3:
+        counter[0] += 1
+        roots.append(S.Axis(rng.choice(names), None, []))
+        second.append(S.Axis(f"unnamed.{counter[0]}", rng.choice([2, 3]), []))
+    return roots + second
+
+
+def count_cse_axes(forest):
+    n = 0
+
+    def walk(j):
+        nonlocal n
+        if j is None:
+            return
+        if j["t"] == "axis":
+            n += j["n"].startswith("cse.")
+        elif j["t"] in ("list", "concat"):
+            for c in j["c"]:
+                walk(c)
+        else:
+            walk(j["e"])
+    for j in forest:
+        walk(j)
+    return n
+
+
+def render_forest(forest):
+    return ", ".join("None" if j is None else render(j) for j in forest)
+
+
+def run_cse_trees(ctx, w, S, M):
+    """(D): model `cseTrees` vs the real `cse` on captured and generated expressions."""
+    import json
+    items = list(w.seen_cse.values())
+    ctx.count("cse_trees:captured-calls", len(items))
+    n_gen = 300 if ctx.quick else 4000
+    for _ in range(n_gen):
+        forest = gen_forest(ctx.rng, S)
+        opts = {"cse_concat": ctx.rng.random() < 0.7, "cse_in_brackets": ctx.rng.random() < 0.4}
+        ren = {}
+        rec = {"roots": forest_json(forest, S, ren), **opts}
+        try:
+            out = {"ok": True, "out": forest_json(list(w.cse(forest, **opts)), S, ren)}
+        except (ValueError, TypeError) as e:
+            out = {"ok": False, "error": type(e).__name__}
+        items.append((rec, out))
+    ctx.count("cse_trees:generated-forests", n_gen)
+    if not ctx.driver_ok:
+        return
+    drv = ctx.driver()
+    answers = drv.ask_many([{"kind": "cse_trees", **rec} for rec, _ in items])
+    n_sub = 0
+    for (rec, real), a in zip(items, answers):
+        nontrivial = False
+        if real["ok"]:
+            k = count_cse_axes(real["out"]) - count_cse_axes(rec["roots"])
+            n_sub += max(k, 0)
+            nontrivial = k > 0
+            ctx.count("cse_trees:substitutions=" + ("<0" if k < 0 else str(k) if k < 3 else "3+"))
+        else:
+            ctx.count("cse_trees:real-raises:" + real["error"])
+        ctx.count(f"cse_trees:opts:concat={rec['cse_concat']},in_brackets={rec['cse_in_brackets']}")
+        ctx.case("cse_trees:" + json.dumps(rec, sort_keys=True), nontrivial=nontrivial)
+        same = (a["ok"] == real["ok"]) and (not real["ok"] or a["out"] == real["out"])
+        if not same:
+            ctx.tie_broken("correspondence:cse_trees",
+                           f"cse({render_forest(rec['roots'])!r}, cse_concat={rec['cse_concat']}, cse_in_brackets={rec['cse_in_brackets']}): "
+                           f"real {render_forest(real['out']) if real['ok'] else real['error']!r}, "
+                           f"model {render_forest(a['out']) if a['ok'] else a['error']!r}")
+    ctx.extra["cse_trees_substitutions_compared"] = n_sub
+    # side conditions of `cseTrees_preserves_sols_partial` on the same inputs (proved checker in the driver)
+    checks = drv.ask_many([{"kind": "cse_check", **rec} for rec, _ in items])
+    n_cap = len(w.seen_cse)
+    uncovered = []
+    for idx, ((rec, real), c) in enumerate(zip(items, checks)):
+        src = "captured" if idx < n_cap else "generated"
+        ctx.count(f"cse_check:{src}:" + ("ok" if c["check"] else "not-met"))
+        if c["used"] > 0:
+            ctx.count(f"cse_check:{src}:with-replacements:" + ("ok" if c["check"] else "not-met"))
+        if not c["filter_ok"]:
+            # decidable form of the proved fact `cse_trees_is_cse_step`: must hold for every input whatsoever
+            ctx.tie_broken("model:cse_filter_ok", f"a replacement of the model did not pass the filter for cse({render_forest(rec['roots'])!r}) [{src}]")
+        if not c["check"]:
+            why = [k for k in ("wf", "used_ok", "pairs_ok") if not c[k]]
+            ctx.count(f"cse_check:{src}:not-met:" + "+".join(why))
+            if src == "captured":
+                sig = (render_forest(rec["roots"]), rec["cse_concat"], rec["cse_in_brackets"])
+                uncovered.append({"cse_of": sig[0], "cse_concat": sig[1], "cse_in_brackets": sig[2], "failed": why,
+                                  "documented": sig in DOCUMENTED_NOT_MET})
+                if sig not in DOCUMENTED_NOT_MET:
+                    ctx.tie_broken("premise:cse_check", f"the side conditions of cseTrees_preserves_sols_partial ({'+'.join(why)}) do not hold for the real call "
+                                   f"cse({sig[0]!r}, cse_concat={sig[1]}, cse_in_brackets={sig[2]})")
+    ctx.extra["cse_check_not_met_on_captured_calls"] = uncovered[:20]
+    if len(w.seen_cse) == 0:
+        ctx.tie_broken("correspondence:cse_trees", "no call of stage2.cse was captured (the wrapper on the package attribute was never reached)")
+    for rec, real in items[:2]:
+        if real["ok"]:
+            ctx.sample({"cse_of": render_forest(rec["roots"]), "real": render_forest(real["out"])})
+
+
+# ------------------------------------------------------------------ C16: adversarial enumeration of the dict
+
+def canon_cse_numbers(forest):
+    """rename the axes `cse.<n>` by first occurrence (pre-order over the forest)"""
+    import re
+    ren = {}
+
+    def walk(j):
+        if j is None:
+            return None
+        t = j["t"]
+        if t == "axis":
+            n = j["n"]
+            if re.fullmatch(r"cse\.\d+", n):
+                n = ren.setdefault(n, f"cse#{len(ren)}")
+            return {"t": "axis", "n": n, "v": j["v"], "min": j["min"]}
+        if t in ("list", "concat"):
+            return {"t": t, "c": [walk(c) for c in j["c"]]}
+        return {"t": t, "e": walk(j["e"])}
+    return [walk(j) for j in forest]
+
+
+def run_cse_order(ctx):
+    """C16: the model `cseTreesEnum` with the dict enumerated in reverse / rotated order must return the expressions the
+    real `cse` returns, up to the numbering of the new axes (`cseTrees_order_independent_partial`); the hypothesis
+    `uniqueIds` of that theorem must hold for every real input."""
+    import json
+    import sys
+    import einx._src.namedtensor.stage2 as S
+    M = sys.modules["einx._src.namedtensor.stage2.cse"]
+    from props import c02
+    cases = [{"api": a, "desc": d, "shapes": [None if s is None else list(s) for s in sh], "params": dict(p)} for a, d, sh, p in FIXED_CALLS]
+    for _ in range(60 if ctx.quick else 800):
+        c = c02.gen_case(ctx.rng)
+        if c["api"] != "solve_axes":
+            cases.append(c)
+    with Wrap() as w:
+        for c in cases:
+            c02.call_real(c)
+    items = list(w.seen_cse.values())
+    n_cap = len(items)
+    for _ in range(200 if ctx.quick else 3000):
+        forest = gen_forest(ctx.rng, S)
+        opts = {"cse_concat": ctx.rng.random() < 0.7, "cse_in_brackets": ctx.rng.random() < 0.4}
+        ren = {}
+        rec = {"roots": forest_json(forest, S, ren), **opts}
+        try:
+            out = {"ok": True, "out": forest_json(list(w.cse(forest, **opts)), S, ren)}
+        except (ValueError, TypeError) as e:
+            out = {"ok": False, "error": type(e).__name__}
+        items.append((rec, out))
+    ctx.count("tie:cse_trees_enum:captured-calls", n_cap)
+    if n_cap == 0:
+        ctx.tie_broken("correspondence:cse_trees_enum", "no call of stage2.cse was captured")
+    drv = ctx.driver()
+    for order in ("reverse", "rotate"):
+        answers = drv.ask_many([{"kind": "cse_enum", "order": order, **rec} for rec, _ in items])
+        for idx, ((rec, real), a) in enumerate(zip(items, answers)):
+            src = "captured" if idx < n_cap else "generated"
+            ctx.count(f"tie:cse_trees_enum:{order}")
+            ctx.count(f"tie:cse_trees_enum:candidates={min(a['candidates'], 3)}" + ("+" if a["candidates"] > 3 else ""))
+            if not a["unique_ids"]:
+                ctx.tie_broken("premise:cse_unique_ids", f"an exprlist belongs to two candidates for cse({render_forest(rec['roots'])!r}) [{src}]")
+            if count_cse_axes(rec["roots"]) > 0:
+                ctx.count("tie:cse_trees_enum:skipped-input-has-cse-names")    # the renumbering is not canonical then
+                continue
+            ctx.case(("cse_enum", order, json.dumps(rec, sort_keys=True)), nontrivial=a["candidates"] > 1)
+            m = a["result"]
+            same = (m["ok"] == real["ok"]) and (not real["ok"] or canon_cse_numbers(m["out"]) == canon_cse_numbers(real["out"]))
+            if not same:
+                ctx.tie_broken("correspondence:cse_trees_enum",
+                               f"enumeration {order}: cse({render_forest(rec['roots'])!r}, cse_concat={rec['cse_concat']}, cse_in_brackets={rec['cse_in_brackets']}): "
+                               f"real {render_forest(real['out']) if real['ok'] else real['error']!r}, "
+                               f"model {render_forest(m['out']) if m['ok'] else m['error']!r} [{src}]")
 
 
 # ------------------------------------------------------------------ (C) brute-force oracle
@@ -287,7 +603,11 @@ def run_cse(ctx):
     ctx.extra["cse_rule"] = ("value_range: (A) every argument/result of the real _value_range and _has_repeated_axis observed during real solve_shapes/matches/id/sum "
                              "calls (19 fixed CSE-typical descriptions incl. D3's, plus the C02 generator) vs the Lean model; (B) random stage-2 trees built with the real "
                              "constructors (values 0..4, min_value 1/2/3/5, repeated names, Python-list arguments) vs the Lean model; (C) brute-force value sets up to "
-                             f"{N_ORACLE} vs the real _value_range on the repetition-free positive ones")
+                             f"{N_ORACLE} vs the real _value_range on the repetition-free positive ones; (D) whole cse: every (expressions, options, result) of the real "
+                             "stage2.cse observed during the same real calls, plus generated forests (real constructors; shared sub-expressions, slices, concatenations, brackets, "
+                             "min_value > 1, both options) on which the real cse is called directly, compared structurally with the model cseTrees (driver kind cse_trees); the "
+                             "side conditions cseCheck of cseTrees_preserves_sols_partial are evaluated by the driver on the same inputs (kind cse_check): not met on a real "
+                             "call other than the two documented ones = broken tie")
     w = run_captured(ctx)
     items_vr = list(w.seen_vr.values())
     items_rep = list(w.seen_rep.values())
@@ -334,6 +654,7 @@ def run_cse(ctx):
         ctx.count("cse:repeated:" + str(r))
         if a["repeated"] != r:
             ctx.tie_broken("correspondence:has_repeated_axis", f"{render(j)!r}: real {r}, model {a['repeated']}")
+    run_cse_trees(ctx, w, S, M)
     if items_vr:
         j, r = items_vr[min(len(items_vr) - 1, 3)]
         ctx.sample({"value_range_of": render(j), "real": r})
